@@ -93,3 +93,10 @@ Fixpoint out_index (lo : nat) (spans : list (nat * nat)) (i : nat) : nat :=
   | [] => i - lo
   | (s, e) :: r => if i <? s then i - lo else (s - lo) + length marker + out_index e r i
   end.
+
+(* total number of bytes inside the spans *)
+Fixpoint span_bytes (spans : list (nat * nat)) : nat :=
+  match spans with
+  | [] => 0
+  | (s, e) :: r => (e - s) + span_bytes r
+  end.
